@@ -3,35 +3,35 @@ import json, os
 ROOT = os.path.dirname(os.path.abspath(__file__))
 CHECKS = {
  'C01': ('exploration', '4/C01', 'seeded search over multi-session schedules; shadow client + glass-box view oracle',
-         'Many seeded multi-session executions of the real server (dict backend) under a deterministic scheduler; every untagged response is applied to a shadow client and checked on the fly (EXPUNGE/EXISTS/FETCH numbering rules) and against the server\'s own sequence list after every tagged reply. Sampling, not proof: a clean batch is evidence.',
+         'Many seeded multi-session executions of the real server (dict and maildir backends; SELECT and EXAMINE sessions, sessions that leave and re-enter the mailbox or die mid-command, deliveries and foreign lock holders on maildir) under a deterministic scheduler; every untagged response is applied to a shadow client and checked on the fly (EXPUNGE/EXISTS/FETCH numbering rules) and against the server\'s own sequence list after every tagged reply. Sampling, not proof: a clean batch is evidence.',
          'Trusted: the simulator\'s asyncio semantics (FIFO ready queue, StreamReader from the stdlib), the strict response parser, the shadow rules as written in the property. lock_yield/drain_yield make awaits suspend that do not suspend with today\'s asyncio.Lock.'),
  'C02': ('exploration', '4/C02', 'seeded search over multi-session histories; shadow view vs probe dump at quiescent points',
-         'Seeded histories of mutating commands by 2-4 sessions (including stale UID targets), with quiescent points at which every session sends NOOP/CHECK and its shadow view (UIDs + believed flags) must equal a read-only probe dump of the mailbox.',
+         'Seeded histories of mutating commands by 2-4 sessions (including stale UID targets, read-only sessions, sessions cancelled or reset mid-command, deliveries), with quiescent points (in-flight commands are given time to finish first) at which every session sends NOOP/CHECK and its shadow view (UIDs + believed flags) must equal a read-only probe dump of the mailbox.',
          'Trusted: probe dump through the real server is the ground truth; shadow .SILENT bookkeeping follows PERMANENTFLAGS as advertised.'),
 }
 CHECKS.update({
  'C16': ('exploration', '4/C16', 'seeded search over idler/writer schedules with held drains; bounded-liveness oracle (3 virtual s, no stimulus)',
-         'Idling sessions and writers under a seeded scheduler, with the idler\'s drain() held across later changes; after the burst the simulator runs 3 virtual seconds with no input and the idler\'s shadow view must equal a probe dump; DONE must give OK, anything else BAD; pushed data obeys the C01 numbering rules.',
+         'Idling sessions and writers under a seeded scheduler, with the idler\'s drain() held across later changes; DONE racing a change or sent into a stalled notification, followed by a NOOP convergence check; after the burst the simulator runs 3 virtual seconds with no input and the idler\'s shadow view must equal a probe dump; DONE must give OK, anything else BAD; pushed data obeys the C01 numbering rules.',
          'Trusted: as C01; the liveness bound (3 virtual seconds) is part of the oracle.'),
  'C17': ('exploration', '4/C17', 'seeded search over select/examine/close/append orders; recent-exclusivity model',
-         'Seeded histories of deliveries/APPEND/COPY/MOVE with 1-3 sessions selecting, examining, closing, reselecting and disconnecting; oracle: every (mailbox, UID) is seen \\Recent by at most one read-write selection, RECENT counts equal the flags shown, STORE of \\Recent has no effect, an arrival with nobody selected is \\Recent for the first read-write SELECT (asserted only in unambiguous histories), and a read-only probe never sees \\Recent stored.',
+         'Seeded histories of deliveries/APPEND/COPY/MOVE with 1-3 sessions selecting, examining, closing, reselecting and disconnecting; oracle: every (mailbox, UID) is seen \\Recent by at most one read-write selection, RECENT counts equal the flags shown, STORE of \\Recent has no effect, an arrival (command or delivery agent) with nobody selected is \\Recent for the first read-write SELECT (asserted only in unambiguous histories), a message shown \\Recent to a read-only selection is shown to some read-write selection too (a fresh one is opened at the end), and a read-only probe never sees \\Recent stored.',
          'Trusted: as C01; garbage collection is run when a connection ends (otherwise only reference counting), which fixes who is still "selected".'),
 })
 CHECKS.update({
  'C10': ('exploration', '4/C10', 'seeded program generation; sequential reference model vs probe dump after every command',
-         'One mutating session (plus passive NOOP sessions) runs seeded programs of message commands through the simulated server; a plain sequential model of mailboxes interprets the same symbolic commands, and after every command the touched mailboxes are dumped through a fresh read-only connection and compared (UIDs, flags, sizes, dates) together with the command\'s own untagged results.',
+         'One mutating session (plus passive NOOP sessions; in a third of the programs a second writer doing NOOP + UID STORE strictly between the first one\'s commands) runs seeded programs of message commands through the simulated server; a plain sequential model of mailboxes interprets the same symbolic commands, and after every command the touched mailboxes are dumped through a fresh read-only connection and compared (UIDs, flags, sizes, dates) together with the command\'s own untagged results.',
          'Trusted: the reference model (sim/model.py, written from RFC 3501/4315/6851), the probe dump, PERMANENTFLAGS as advertised. Where the RFC leaves behaviour open (out-of-range sequence numbers, empty sets) both outcomes are accepted.'),
  'C12': ('exploration', '4/C12', 'differential pair of deterministic runs (with / without the read-only program)',
-         'Each case is run twice in the simulator: with a read-only session (EXAMINE, or SELECT of the read-only demo mailbox) executing a random program of every message command, and without that session; the next read-write session must observe identical SELECT counts and per-message flags including \\Recent; mutating commands must answer NO, CLOSE must answer OK, observers must receive no change notifications.',
+         'Each case is run twice in the simulator: with a read-only session (EXAMINE, or SELECT of the read-only demo mailbox) executing a random program of every message command, and without that session; the next read-write session must observe identical SELECT counts and per-message flags including \\Recent (deliveries made from inside the read-only selection are made from outside it in the other run; third-party deliveries happen in both, and the read-write observers together must be shown the same \\Recent UIDs); mutating commands must answer NO, CLOSE must answer OK, observers must receive no change notifications.',
          'Trusted: simulator determinism (run A and run B differ only by the read-only program); checked by digest re-runs.'),
 })
 CHECKS.update({
- 'C05': ('exploration', '4/C05', 'exhaustive enumeration of short command programs from 4 start states, then seeded random programs; state model + reveal probes',
-         'All programs of length <= 2 (thorough: <= 3 from the not-authenticated state) over a 38-letter alphabet covering every built-in command, from four start states and with TLS required or not, are executed against the simulated server; a four-state model predicts accept/refuse, three effect-free probes after every letter reveal the real state and which mailbox is selected, and a refused letter must leave state and every mailbox dump unchanged. Longer programs are sampled with seeds. Exhaustive over programs of the stated length, sampling beyond.',
+ 'C05': ('exploration', '4/C05', 'exhaustive enumeration of short command programs from 5 start states and of interference / IDLE families, then seeded random programs (chunked input, maildir); state model + reveal probes',
+         'All programs of length <= 2 (thorough: <= 3 from the not-authenticated state) over a 38-letter alphabet covering every built-in command, from five start states (TLS required: from two in the quick tier), plus families with a second session deleting/renaming the selected mailbox, IDLE ended by garbage, and DONE pipelined with a change of selection, are executed against the simulated server; a four-state model predicts accept/refuse, three effect-free probes after every letter reveal the real state and which mailbox is selected, and a refused letter must leave state and every mailbox dump unchanged. Longer programs are sampled with seeds. Exhaustive over programs of the stated length, sampling beyond.',
          'Trusted: the state model (profiles/c05.py), the reveal probes being effect-free, the observer dumps. Schedules are not the variable here (single connection); input chunking is varied in the random part.'),
  'C06': ('exploration', '4/C06', 'seeded input generation (grammar-derived, mutated, raw; hostile stored messages) executed in the simulator with a canary connection; answered-within-bound oracle and wall watchdog',
          'Seeded command lines in the three connection states - template-derived for every command, structurally mutated, and raw bytes - plus hostile stored messages fetched with every attribute and searched with every key, are sent to the simulated server. Oracle: every structurally complete line gets a tagged completion / * BAD / continuation / BYE within 2 virtual seconds, a canary connection keeps getting OK, the connection task never ends with an exception ([SERVERBUG]) and is never closed without BYE; a 5 s wall watchdog per loop iteration turns an infinite loop into a reported hang with its call site.',
-         'Trusted: the completeness judgement for lines containing literal markers is conservative (any doubtful line is not required to be answered); the 5 s wall watchdog. ManageSieve inputs are covered by C19, not here.'),
+         'Trusted: the framing rule used to decide whether an input leaves the server owed literal data (a marker counts only at the end of a physical line); the 5 s wall watchdog. 15% of the cases go to the ManageSieve listener, 25% replay the multi-session and model generators and report only exceptions, hangs and commands left unanswered at the end.'),
 })
 CHECKS.update({
  'C07': ('exploration', '4/C07', 'seeded hostile-echo workloads plus the C01/C06/C10 generators; strict independent response parser over every byte written',
